@@ -117,22 +117,28 @@ void constructCommon(ModelSignature model,
     std::string filename_old = checkpoint_filename + "_old";
 
     if (!filename.empty()){ // recover from an existing checkpoint
-        std::ifstream infile(filename, std::ios::binary);
-        try{ // attempt to recover from filename
-            if (!infile.good()) throw std::runtime_error("missing main checkpoint");
-            grid.read(infile, mode_binary);
-            complete.read(infile);
-        }catch(std::runtime_error &){
-            // main file is missing or is corrupt, try the older version
-            std::ifstream oldfile(filename_old, std::ios::binary);
+        // each file is first read into temporaries, a corrupt checkpoint must not damage the grid that is needed to start over
+        auto recover = [&](std::string const &name)->bool{
+            std::ifstream infile(name, std::ios::binary);
             try{
-                if (!oldfile.good()) throw std::runtime_error("missing main checkpoint");
-                grid.read(oldfile, mode_binary);
-                complete.read(oldfile);
+                if (!infile.good()) throw std::runtime_error("missing checkpoint");
+                { // dry run, throws if the file is corrupt before anything is changed
+                    TasmanianSparseGrid saved_grid;
+                    CompleteStorage saved_samples(num_dimensions);
+                    saved_grid.read(infile, mode_binary);
+                    saved_samples.read(infile);
+                }
+                infile.clear();
+                infile.seekg(0);
+                grid.read(infile, mode_binary);
+                complete.read(infile);
+                return true;
             }catch(std::runtime_error &){
-                // nothing could be recovered, start over from the current grid
+                return false; // the file is missing or is corrupt
             }
-        }
+        };
+        if (!recover(filename)) // attempt to recover from filename, then try the older version
+            recover(filename_old); // if nothing could be recovered, start over from the current grid
     }
 
     if (!filename.empty()){ // initial checkpoint
